@@ -92,6 +92,9 @@ func (x *ctx) checkEmptyIter(v *iterView) *vk.Failure {
 		if v.it.Next() {
 			return x.failf("iter-too-many", "%v yields %s, model has no items", v, fmtItems([]item{v.cur()}))
 		}
+		if f := x.checkAfterEnd(v, item{}, false); f != nil {
+			return f
+		}
 		if v.slice != nil {
 			if rest := v.slice(); len(rest) != 0 {
 				return x.failf("iter-slice", "%v: slice method returns %s, model has no items", v, fmtItems(rest))
@@ -133,6 +136,13 @@ func (x *ctx) checkIterFull(v *iterView, want []item) *vk.Failure {
 			}
 			return x.failf("iter-len", "%v: Len()=%d after %d of %d items", v, l, len(got), n)
 		}
+	}
+	var last item
+	if len(got) > 0 {
+		last = got[len(got)-1]
+	}
+	if f := x.checkAfterEnd(v, last, len(got) > 0); f != nil {
+		return f
 	}
 	if !sameItems(got, want) {
 		return x.failf("iter-items", "%v yields %s, model has %s", v, fmtItems(got), fmtItems(want))
@@ -187,6 +197,34 @@ func (x *ctx) checkIterFull(v *iterView, want []item) *vk.Failure {
 		return x.failf("iter-reset-items", "%v yields %s after Reset, model has %s", v, fmtItems(got), fmtItems(want))
 	}
 	return nil
+}
+
+// checkAfterEnd: graph.Iterator documents that Next "returns whether the next
+// call to the item method will return a non-nil item", so after Next returned
+// false the item method must return nil.
+func (x *ctx) checkAfterEnd(v *iterView, last item, hasLast bool) *vk.Failure {
+	it := v.cur()
+	if it.f == nilID {
+		return nil
+	}
+	switch v.it.(type) {
+	case *iterator.ImplicitNodes:
+		// Known defect: the guard in ImplicitNodes.Node is dead code and the
+		// node with ID end, which is outside the range, is manufactured.
+		if !hasLast || it.f == last.f+1 {
+			x.softf("implicit-nodes-item-after-end",
+				"%v (%T): after Next returned false Node() returns a new node with ID %d, one past the range; documented: nil", v, v.it, it.f)
+			return nil
+		}
+	case *iterator.Nodes, *iterator.NodesByEdge, *iterator.Lines, *iterator.WeightedLines:
+		// Known defect of the map backed iterators: the last item stays current.
+		if hasLast && it == last {
+			x.softf("map-iter-item-after-end",
+				"%v (%T): after Next returned false the item method still returns the last item %s; documented: nil", v, v.it, fmtItems([]item{it}))
+			return nil
+		}
+	}
+	return x.failf("iter-item-after-end", "%v (%T): after Next returned false the item method returns %s; documented: nil", v, v.it, fmtItems([]item{it}))
 }
 
 func isOrderedEdgesOrLines(it graph.Iterator) bool {
